@@ -55,7 +55,11 @@ def run(rep, tier):
             got = {norm(l["path"]): l for l in o["leaves"]}
             for l in c["leaves"]:
                 g = got[norm(l["path"])]
-                if norm(g["leaf"]) != norm(l["leaf"]):
+                # the stored form of a leaf is only specified for scalars, arrays of scalars and empty objects; what a condition
+                # answers is specified for every leaf (an element that is not a scalar equals no scalar)
+                lf = l["leaf"]
+                plain = "f" not in lf and all(set(x) <= {"s", "i", "b", "z"} for x in lf.get("a", []))
+                if plain and norm(g["leaf"]) != norm(l["leaf"]):
                     rep.violation("paths/leaf-not-found-or-different", {"case": c, "path": vlib.cp_to_str(l["path"]), "expected": l["leaf"], "observed": g["leaf"]})
                 for k in ("star", "lit"):
                     want = l[k] == "must"
